@@ -57,6 +57,10 @@ def main (args : List String) : IO UInt32 := do
     let (n, k) ← loop stdin stdout storeLine 0 0
     stdout.putStrLn s!"SUMMARY store lines={n} reports={k}"
     return 0
+  | ["match"] =>
+    let (n, k) ← loop stdin stdout (matchLine Bisquitt.specMatch) 0 0
+    stdout.putStrLn s!"SUMMARY match lines={n} reports={k}"
+    return 0
   | ["tx"] =>
     let (n, k) ← caseLoop stdin stdout txCase none #[] 0 0
     stdout.putStrLn s!"SUMMARY tx cases={n} reports={k}"
